@@ -72,7 +72,7 @@ func init() {
 				W:       weights(Weights{"update-ref": 5, "branch": 4, "branch-rename": 3, "reset": 6, "junk": 6, "switch-c": 2, "commit-inject": 4, "fd-swap": 4, "restore": 6}),
 				Oracles: []HistOracle{orC03}, PreReset: true, AbsRefine: true}
 		})
-	checks["C04"] = histCheck("C04", []string{"C04.update_membership", "C04.world_add_frame", "C04.world_rm_frame", "C04.update_perm", "C04.update_same_noop", "C04.delete_exact", "C04.eraseIdx_canonical", "C04.sortEntries_sorted", "C06.getEntry_correct", "C04.rm_exact", "C04.rmArgs_exact", "C04.rm_unknown_refused", "C04.addArgs_frame", "C04.add_file_staged", "C04.update_canonical", "C04.delete_frame", "C04.add_dir_staged", "C04.addFold_staged"}, histRule,
+	checks["C04"] = histCheck("C04", []string{"C04.update_membership", "C04.world_add_is_cmd", "C04.world_rm_is_cmd", "C04.world_add_frame", "C04.world_rm_frame", "C04.update_perm", "C04.update_same_noop", "C04.delete_exact", "C04.eraseIdx_canonical", "C04.sortEntries_sorted", "C06.getEntry_correct", "C04.rm_exact", "C04.rmArgs_exact", "C04.rm_unknown_refused", "C04.addArgs_frame", "C04.add_file_staged", "C04.update_canonical", "C04.delete_frame", "C04.add_dir_staged", "C04.addFold_staged"}, histRule,
 		func(ctx *Ctx) *HistCfg {
 			return &HistCfg{Prop: "C04", Cases: tierN(ctx, 200, 2000), MinSteps: 8, MaxSteps: 30,
 				W:       weights(Weights{"add": 25, "rm": 12, "write": 20, "rmfile": 8, "rmdir": 4, "reset": 1, "twins": 4, "junk": 0}),
@@ -153,7 +153,7 @@ func init() {
 				W:       weights(Weights{"junk": 14, "status": 5, "reflog": 4, "log": 3, "branch-rename": 4, "reset": 6, "rm": 6, "restore": 6}),
 				Oracles: []HistOracle{orC18}, NoIdent: 15, FreshPct: 35, JunkSweep: true}
 		})
-	checks["C20"] = histCheck("C20", []string{"C20.parse_render", "C20.world_only_config_writes_config", "C20.add_get", "C20.local_overrides_global", "C20.global_fallback", "C20.isUserSet_iff", "C20.add_cfgOK", "C20.config_set_roundtrip", "C20.configCmd_ok", "C20.configCmd_roundtrip", "C20.configCmd_refused"}, histRule,
+	checks["C20"] = histCheck("C20", []string{"C20.parse_render", "C20.world_only_config_writes_config", "C20.world_config_is_cmd", "C20.world_config_refused_unchanged", "C20.add_get", "C20.local_overrides_global", "C20.global_fallback", "C20.isUserSet_iff", "C20.add_cfgOK", "C20.config_set_roundtrip", "C20.configCmd_ok", "C20.configCmd_roundtrip", "C20.configCmd_refused"}, histRule,
 		func(ctx *Ctx) *HistCfg {
 			return &HistCfg{Prop: "C20", Cases: tierN(ctx, 200, 2000), MinSteps: 6, MaxSteps: 25,
 				W:       Weights{"config": 30, "commit": 10, "write": 10, "add-all": 8, "status": 1},
